@@ -139,23 +139,20 @@ Theorem C16_midpoint_exact_formats :
 Proof. repeat split; apply e_midpoint_exact; lia. Qed.
 Print Assumptions C16_midpoint_exact_formats.
 
-(* gcem fmod (exact binary long division; the constant-evaluation path of etl::fmod): whenever the
-   fuelled model returns a value (it has no undefined step; the fuel, 2 emax + 2 prec + 8 iterations
-   per loop, exceeds the number of binades of the format) that value is, bit for bit, the C fmod:
-   exact remainder of the truncated quotient, sign of x also for a zero result, NaN for NaN
-   operands / infinite x / zero y, x for infinite y.  Every format with 2 <= prec. *)
-Theorem C16_gcem_fmod_exact :
+(* gcem fmod and remainder (exact binary long division since commit 57a95a0; the constant-evaluation
+   paths of etl::fmod / etl::remainder): the fuelled model always returns a value (the fuel,
+   2 emax + 2 prec + 8 iterations per loop, is proved sufficient: each loop runs at most once per
+   binade) and that value is, bit for bit, the C fmod (exact remainder of the truncated quotient) resp.
+   the IEC 60559 remainder (quotient rounded to nearest, ties to even): sign of x also for a zero
+   result, NaN for NaN operands / infinite x / zero y, x for infinite y.  EVERY pair of values of every
+   format with 2 <= prec. *)
+Theorem C16_gcem_fmod_remainder_exact :
   forall prec emax (Hp : Prec_gt_0 prec) (Hpe : Prec_lt_emax prec emax), 2 <= prec ->
-  forall x y v : binary_float prec emax,
-  g_fmod prec emax Hp Hpe x y = Ok v -> v = spec_fmod prec emax Hp Hpe x y.
-Proof. exact g_fmod_exact_thm. Qed.
-Print Assumptions C16_gcem_fmod_exact.
-
-(* gcem remainder (constant-evaluation path of etl::remainder): IEC 60559 remainder — quotient rounded
-   to nearest, ties to even; exact; a zero result has the sign of x.  Same reading as above. *)
-Theorem C16_gcem_remainder_exact :
-  forall prec emax (Hp : Prec_gt_0 prec) (Hpe : Prec_lt_emax prec emax), 2 <= prec ->
-  forall x y v : binary_float prec emax,
-  g_remainder prec emax Hp Hpe x y = Ok v -> v = spec_remainder prec emax Hp Hpe x y.
-Proof. exact g_remainder_exact_thm. Qed.
-Print Assumptions C16_gcem_remainder_exact.
+  forall x y : binary_float prec emax,
+  g_fmod prec emax Hp Hpe x y = Ok (spec_fmod prec emax Hp Hpe x y) /\
+  g_remainder prec emax Hp Hpe x y = Ok (spec_remainder prec emax Hp Hpe x y).
+Proof.
+  intros prec emax Hp Hpe H x y.
+  exact (conj (g_fmod_total prec emax Hp Hpe H x y) (g_remainder_total prec emax Hp Hpe H x y)).
+Qed.
+Print Assumptions C16_gcem_fmod_remainder_exact.
